@@ -81,7 +81,49 @@ func eval(c Case) *pbt.Fail {
 
 // loopy builds inputs aimed at the loops of the parsers.
 func loopy(rt *rapid.T) (string, []byte, string) {
-	switch rapid.IntRange(0, 9).Draw(rt, "loopy") {
+	switch rapid.IntRange(0, 11).Draw(rt, "loopy") {
+	case 11: // XMP with one token (text, attribute value, white-space run, tag name) of 20 KB .. 1 MB, whole or cut
+		n := rapid.SampledFrom([]int{20000, 100000, 300000, 1000000}).Draw(rt, "toklen")
+		fill := rapid.SampledFrom([]string{"v", " ", "<", "&amp;", "\"", "a=\"b\" "}).Draw(rt, "tokfill")
+		long := strings.Repeat(fill, n/len(fill))
+		head := "<x:xmpmeta xmlns:x=\"adobe:ns:meta/\"><rdf:RDF xmlns:rdf=\"http://www.w3.org/1999/02/22-rdf-syntax-ns#\"><rdf:Description rdf:about=\"\" xmlns:tiff=\"http://ns.adobe.com/tiff/1.0/\""
+		var body string
+		switch rapid.IntRange(0, 3).Draw(rt, "tokwhere") {
+		case 0:
+			body = head + "><tiff:Make>" + long + "</tiff:Make>"
+		case 1:
+			body = head + " tiff:Make=\"" + long + "\">"
+		case 2:
+			body = head + ">" + long + "<tiff:Make>x</tiff:Make>"
+		default:
+			body = head + "><tiff:" + long + ">x</tiff:" + long + ">"
+		}
+		if rapid.Bool().Draw(rt, "closed") {
+			body += "</rdf:Description></rdf:RDF></x:xmpmeta>"
+		}
+		return "xmp", []byte(body), "xmp-huge-token"
+	case 10: // PNG chunks whose 32-bit length is negative as a signed number / wraps when the CRC size is added: a scanner that
+		// seeks by it may step back onto a chunk it has read
+		b := []byte("\x89PNG\r\n\x1a\n\x00\x00\x00\rIHDR\x00\x00\x00\x10\x00\x00\x00\x10\x08\x02\x00\x00\x00\x90\x91\x68\x36")
+		var starts []int
+		for i, n := 0, rapid.IntRange(0, 3).Draw(rt, "chunks"); i < n; i++ {
+			starts = append(starts, len(b))
+			d := rapid.SliceOfN(rapid.Byte(), 0, 40).Draw(rt, "chunk")
+			b = append(b, byte(len(d)>>24), byte(len(d)>>16), byte(len(d)>>8), byte(len(d)))
+			b = append(b, rapid.SampledFrom([]string{"tEXt", "gAMA", "pHYs", "zTXt"}).Draw(rt, "ctype")...)
+			b = append(append(b, d...), 0, 0, 0, 0)
+		}
+		here := len(b)
+		back := rapid.IntRange(1, 64).Draw(rt, "back")
+		if len(starts) > 0 && rapid.Bool().Draw(rt, "to-earlier-chunk") { // length + CRC size + the 8 header bytes lands on an earlier chunk header
+			back = here + 8 - starts[rapid.IntRange(0, len(starts)-1).Draw(rt, "which")] + 4
+		}
+		l := uint32(0) - uint32(back)
+		b = append(b, byte(l>>24), byte(l>>16), byte(l>>8), byte(l))
+		b = append(b, rapid.SampledFrom([]string{"tEXt", "iTXt", "IDAT", "prVt"}).Draw(rt, "ltype")...)
+		b = append(b, rapid.SliceOfN(rapid.Byte(), 0, 60).Draw(rt, "rest")...)
+		b = append(b, []byte("\x00\x00\x00\x08eXIfII*\x00\x08\x00\x00\x00\x00\x00\x00\x00\x00\x00\x00\x00IEND")...)
+		return "png", b, "png-negative-lengths"
 	case 0: // JPEG: EOI followed by markers, marker bytes at SOI depth 0
 		b := []byte{0xFF, 0xD8}
 		for i, n := 0, rapid.IntRange(0, 3).Draw(rt, "segs"); i < n; i++ {
